@@ -322,7 +322,7 @@ class Repo:
             return [common.MONORAIL] + g + ["-f", os.path.join(self.dir, "Monorail.json")] + list(args), self.invoke_cwd
         return [common.MONORAIL] + g + list(args), self.dir
 
-    def mr(self, *args, env=None, timeout=120, stdin=None, cwd=None):
+    def mr(self, *args, env=None, timeout=120, stdin=None, cwd=None, nofile=None):
         """Runs the hooks-on monorail binary in the repository; returns Result."""
         if getattr(self, "invoke_cwd", None) and cwd is None and "-f" not in args:
             cwd = self.invoke_cwd
@@ -330,8 +330,12 @@ class Repo:
         e = self.s.env(env)
         args = tuple(getattr(self, "global_flags", None) or []) + tuple(args)
         try:
+            pre = None
+            if nofile:
+                import resource
+                pre = lambda: resource.setrlimit(resource.RLIMIT_NOFILE, (nofile, nofile))   # a small descriptor limit
             r = subprocess.run([common.MONORAIL] + list(args), cwd=cwd or self.dir, env=e,
-                               capture_output=True, timeout=timeout, input=stdin)
+                               capture_output=True, timeout=timeout, input=stdin, preexec_fn=pre)
         except subprocess.TimeoutExpired:
             return Result(-999, b"", b"timeout")
         return Result(r.returncode, r.stdout, r.stderr)
